@@ -1,5 +1,5 @@
 import Librfn.Driver.Util
-import Librfn.Gen.Rotenc
+import Librfn.Gen.RotencSeq
 /-! Evaluates the generated rotary-encoder functions (tie T, C19). -/
 namespace Librfn.Driver.PureRotenc
 open Librfn.Driver Librfn.Gen
@@ -8,10 +8,10 @@ def step (_ : Unit) (w : List String) : Unit × List String :=
   match w with
   | ["rotenc", ls, c, ic, st] =>
       -- field widths are whatever the generated signature says (`BitVec.ofNat _`)
-      let r := Rotenc.rotenc_decode (BitVec.ofNat _ (nat! ls)) (BitVec.ofNat _ (nat! c)) (BitVec.ofNat _ (nat! ic)) (BitVec.ofNat _ (nat! st))
-      let c14 := Rotenc.rotenc_count14 r.1 r.2.1 r.2.2
-      let c8 := Rotenc.rotenc_count r.1 r.2.1 r.2.2
-      ((), [s!"{r.1.toNat} {r.2.1.toNat} {r.2.2.toNat} {c14.1.toNat} {c8.1.toNat}"])
+      let r := RotencSeq.rotenc_decode (BitVec.ofNat _ (nat! ls)) (BitVec.ofNat _ (nat! c)) (BitVec.ofNat _ (nat! ic)) (BitVec.ofNat _ (nat! st))
+      let c14 := RotencSeq.rotenc_count14 r.r_last_state r.r_count r.r_internal_count
+      let c8 := RotencSeq.rotenc_count r.r_last_state r.r_count r.r_internal_count
+      ((), [s!"{r.r_last_state.toNat} {r.r_count.toNat} {r.r_internal_count.toNat} {c14.ret.toNat} {c8.ret.toNat}"])
   | _ => ((), ["bad-op"])
 
 def main (_ : List String) : IO UInt32 := runLines () step
